@@ -39,6 +39,7 @@ def _run(ctx, chk):
     Q.rule_pop(chk, "Q3", "Q3", "Q3")
     Q.rule_remove_find(chk, "Q3")
     LR.rule_balance_conc(ctx, chk, L, "Q4")
+    LR.rule_unanalysed_writers(ctx, chk, L, "Q4")
     c06.rule_drain(ctx, chk, L, "Q4")
     Q.rule_private(chk, "Q5")
     from ..report import Relabel
